@@ -2012,11 +2012,11 @@ Qed.
    Exact check: Y still waits 600, accumulated wait 3000 > 2400: the move is
    rejected by the vehicle max-wait constraint and rolled back. *)
 Definition w_opts : options :=
-  mkOptions false false false false false false false false false false false 0 1 0 1 false.
-Definition w_X : istop := mkIStop [] 0 [(3000, 100020)] None 10 [].
-Definition w_Y : istop := mkIStop [] 0 [(6600, 100020)] None 10 [].
+  mkOptions false false false false false false false false false false false 0 1 0 1 false 0 0 0 0.
+Definition w_X : istop := mkIStop [] 0 [(3000, 100020)] None 10 [] None 0 0.
+Definition w_Y : istop := mkIStop [] 0 [(6600, 100020)] None 10 [] None 0 0.
 Definition w_veh : ivehicle :=
-  mkIVehicle None [] 0 None None None None (Some 2400) [] 0 true true.
+  mkIVehicle None [] 0 None None None None (Some 2400) [] 0 true true 0 0.
 Definition w_mat : list (list Z) :=
   [[0; 3000; 600; 600]; [3000; 0; 6000; 0]; [600; 6000; 0; 0]; [600; 0; 0; 0]].
 Definition w_inp : input :=
@@ -2184,8 +2184,8 @@ Qed.
 Definition ng_mat : list (list Z) :=
   [[0; 600; 0; 0]; [600; 0; 600; 600]; [0; 600; 0; 0]; [0; 600; 0; 0]].
 Definition ng_inp : input :=
-  mkInput [] [mkIStop [] 0 [(300, 100020)] None 10 []; mkIStop [] 0 [(900, 100020)] None 10 []]
-          [mkIVehicle None [] 0 None None None None (Some 500) [] 0 true true]
+  mkInput [] [mkIStop [] 0 [(300, 100020)] None 10 [] None 0 0; mkIStop [] 0 [(900, 100020)] None 10 [] None 0 0]
+          [mkIVehicle None [] 0 None None None None (Some 500) [] 0 true true 0 0]
           [mkIUnit [0%nat] []; mkIUnit [1%nat] []] ng_mat ng_mat 0 w_opts [([0%nat], -300)].
 Definition ng_s0 : state :=
   Eval vm_compute in match new_solution ng_inp with Some s => s | None => w_dummy end.
@@ -2290,7 +2290,7 @@ Qed.
    wait 3000 instead of 2400 *)
 Definition w3_inp : input :=
   mkInput [] [w_X; w_Y]
-          [mkIVehicle None [] 0 None None None None (Some 3000) [] 0 true true]
+          [mkIVehicle None [] 0 None None None None (Some 3000) [] 0 true true 0 0]
           [mkIUnit [0%nat] []; mkIUnit [1%nat] []] w_mat w_mat 0 w_opts [].
 Definition w3_s0 : state :=
   Eval vm_compute in match new_solution w3_inp with Some s => s | None => w_dummy end.
@@ -2322,9 +2322,9 @@ Proof. split; vm_compute; reflexivity. Qed.
    estimate misses it.  This is outside the domain in which est_distance is a
    model of the code (there the code walks every downstream stop), so it is
    NOT a candidate defect; it only shows the hypothesis is used. *)
-Definition n_st : istop := mkIStop [] 0 [] None 10 [].
+Definition n_st : istop := mkIStop [] 0 [] None 10 [] None 0 0.
 Definition n_veh : ivehicle :=
-  mkIVehicle None [] 0 None None None (Some 100) None [] 0 true true.
+  mkIVehicle None [] 0 None None None (Some 100) None [] 0 true true 0 0.
 Definition n_dur : list (list Z) := map (fun _ => [0; 0; 0; 0; 0]) (seqn 5).
 Definition n_dist : list (list Z) :=
   [[0; 5; 0; 0; 0]; [0; 0; 90; 0; 0]; [0; 0; 0; 0; -50]; [15; 10; 0; 0; 0]; [0; 0; 0; 0; 0]].
@@ -2375,10 +2375,10 @@ Qed.
    also compare the END of X (1200 against the cached 600), do not stop, go
    on to Z and answer "violated". *)
 Definition dg_opts : options :=
-  mkOptions false false false false false false false false false false false 0 1 0 1 false.
-Definition dg_plain : istop := mkIStop [] 0 [] None 10 [].
-Definition dg_Z : istop := mkIStop [] 0 [(60, 900); (3600, 7200)] (Some 60) 10 [].
-Definition dg_veh : ivehicle := mkIVehicle None [] 0 None None None None None [] 0 true true.
+  mkOptions false false false false false false false false false false false 0 1 0 1 false 0 0 0 0.
+Definition dg_plain : istop := mkIStop [] 0 [] None 10 [] None 0 0.
+Definition dg_Z : istop := mkIStop [] 0 [(60, 900); (3600, 7200)] (Some 60) 10 [] None 0 0.
+Definition dg_veh : ivehicle := mkIVehicle None [] 0 None None None None None [] 0 true true 0 0.
 Definition dg_mat : list (list Z) :=
   [[0; 0; 0; 0; 0; 0]; [0; 0; 0; 0; 0; 0]; [0; 0; 0; 0; 0; 0];
    [0; 0; 0; 0; 0; 0]; [0; 0; 0; 0; 0; 0]; [0; 0; 0; 0; 0; 0]].
@@ -2482,8 +2482,8 @@ Qed.
    the wait accumulated in front of X did not grow.  The same input with a
    vehicle max wait of 60 s instead of Z's *)
 Definition dgv_inp : input :=
-  mkInput [] [dg_plain; dg_plain; mkIStop [] 0 [(60, 900); (3600, 7200)] None 10 []; dg_plain]
-          [mkIVehicle None [] 0 None None None None (Some 60) [] 0 true true]
+  mkInput [] [dg_plain; dg_plain; mkIStop [] 0 [(60, 900); (3600, 7200)] None 10 [] None 0 0; dg_plain]
+          [mkIVehicle None [] 0 None None None None (Some 60) [] 0 true true 0 0]
           [mkIUnit [0; 1; 2]%nat []; mkIUnit [3%nat] []]
           dg_mat dg_mat 0 dg_opts [([0; 1]%nat, 600)].
 Definition dgv_s0 : state :=
@@ -2581,7 +2581,7 @@ Definition dg_off_inp : input :=
   mkInput [] [dg_plain; dg_plain; dg_Z; dg_plain] [dg_veh]
           [mkIUnit [0; 1; 2]%nat []; mkIUnit [3%nat] []]
           dg_mat dg_mat 0
-          (mkOptions false false false false false false false false false false false 0 1 0 1 true)
+          (mkOptions false false false false false false false false false false false 0 1 0 1 true 0 0 0 0)
           [([0; 1]%nat, 600)].
 Definition dg_off_s0 : state :=
   Eval vm_compute in match new_solution dg_off_inp with Some s => s | None => w_dummy end.
